@@ -26,7 +26,7 @@ REQUIRED_BUCKETS = ["role/static", "role/dynamic-traj", "role/dynamic-set", "rol
                     "state/PMState", "t/before", "t/initial", "t/inside", "t/after", "uncertain/orientation", "uncertain/position",
                     "scenario/role-filter", "scenario/position-interval", "shape/group", "shape/poly",
                     "history/trajectory-replaced", "history/update-initial-state",
-                    "place/rect", "place/circ", "place/poly", "place/group"]
+                    "place/rect", "place/circ", "place/poly", "place/group", "set/unsorted"]
 
 TOL = 1e-9
 
@@ -82,6 +82,9 @@ def gen_obstacle(r, oid):
             else:
                 occs.append({"time": [t], "shape": geom.gen_shape(r)})
                 t += r.choice([1, 1, 2])
+        if len(occs) > 1 and r.random() < 0.35:
+            r.shuffle(occs)                            # the occupancy set is a list in ANY order: no sortedness may be assumed
+            o["unsorted_set"] = True
         o["set"] = {"t0": first, "occs": occs}
         if kind == "phantom" and r.random() < 0.15:
             o["set"] = None
@@ -409,6 +412,8 @@ def run_obstacle(ctx, case):
     from commonroad.common.util import Interval
     o, ts = case["obst"], case["ts"]
     ctx.tag("role/" + o["kind"])
+    if o.get("unsorted_set") and o.get("set"):
+        ctx.tag("set/unsorted")
     ctx.tag("shape/" + o["shape"]["k"])
     if o["kind"] == "dynamic-traj":
         ctx.tag("state/" + o["traj"]["cls"])
